@@ -55,6 +55,14 @@ fn main() {
         }
         return;
     }
+    if args.len() >= 4 && args[1] == "COSPROBE" {
+        // adbharness COSPROBE <url> <rule>... : per-site cosmetic resources of a small rule set
+        let e = adblock::Engine::from_rules_parametrised(&args[3..], Default::default(), true, true);
+        let c = e.url_cosmetic_resources(&args[2]);
+        println!("hide={:?} procedural={:?} exceptions={:?} generichide={} script_len={}", c.hide_selectors, c.procedural_actions, c.exceptions, c.generichide, c.injected_script.len());
+        println!("class x: {:?}", e.hidden_class_id_selectors(["x"], ["x"], &Default::default()));
+        return;
+    }
     if args.len() >= 5 && args[1] == "C19SEQ" {
         c19::run_seq_file(args[2].parse().unwrap(), args[3].parse().unwrap(), &args[4]);
         return;
